@@ -77,8 +77,15 @@ def h_infer_condition():
                 mv = vm.alloc(Var, {"_is_iterable_": val_it, "_id_": 62}, tag="match-variable")
                 m = vm.alloc(M, {"variable": mv, "universal": universal, "existential": existential, "kwargs": make_dict([]), "type_": None}, tag="match")
                 values.append((f"match[{'collection' if val_it else 'scalar'}{',universal' if universal else ''}{',existential' if existential else ''}]", m, val_it, universal, existential))
+                # the selecting forms mean the same (a Select reports the attribute it constrains: its _var_ is that attribute)
+                sv = vm.alloc(Var, {"_is_iterable_": val_it, "_id_": 63}, tag="select-variable")
+                sm = vm.alloc(cls(vm, MATCH, "Select"), {"variable": sv, "universal": universal, "existential": existential, "kwargs": make_dict([]), "type_": None,
+                                                         "is_selected": True, "_var_": None}, tag="select")
+                values.append((f"select[{'collection' if val_it else 'scalar'}{',universal' if universal else ''}{',existential' if existential else ''}]", sm, val_it, universal, existential))
             for label, value, val_it, universal, existential in values:
                 attr = attr_obj(vm, attr_it)
+                if isinstance(value, Obj) and value.cls.name == "Select":
+                    value.fields["_var_"] = attr
                 aa = vm.alloc(AA, {"attr_name": "f", "variable": None, "assigned_value": value, "conditions": PyList([]), "attr": attr}, tag="assignment")
                 del log[:]
                 try:
@@ -86,7 +93,7 @@ def h_infer_condition():
                 except PyRaise as pr:
                     ctx.fail("AttributeAssignment.infer_condition::builds-a-condition", detail=f"{label}: {pr.exc!r}")
                     continue
-                target = value.fields["variable"] if isinstance(value, Obj) and value.cls is M else value
+                target = value.fields["variable"] if isinstance(value, Obj) and value.cls.name in ("Match", "Select") else value
                 core = r
                 if existential:
                     ok_ex = isinstance(r, Obj) and r.fields.get("built") == "exists" and r.fields["args"][0] is attr
@@ -277,5 +284,13 @@ def h_canary():
     return Harness("canary", run, expect_fail=True)
 
 
+def _selected_parts_are_consistent():
+    """the rows of a selecting pattern: every selected expression is evaluated under ALL bindings of the ones before it (C01's
+    cover lemma of the query descriptor on the same real QueryObjectDescriptor code)"""
+    from . import C01, C10
+    # ... and a nested match over a collection attribute looks at EVERY element of the collection (Flatten reports each once)
+    return [h for h in C01.harnesses() if h.name.startswith("query-descriptor[")] + [h for h in C10.harnesses() if h.name == "streaming-Flatten"]
+
+
 def harnesses():
-    return [h_infer_condition(), h_resolve(), h_constructors(), h_expression(), h_selected_variables(), h_canary()]
+    return [h_infer_condition(), h_resolve(), h_constructors(), h_expression(), h_selected_variables()] + _selected_parts_are_consistent() + [h_canary()]
